@@ -63,7 +63,7 @@ def queries(tier):
             for c in tc:
                 if q and len({a, b, c}) == 3: continue
                 np = sum(1 for x in (a, b, c) if x.startswith('P_'))
-                if np in (1, 2): continue          # mixed pointer / non-pointer triples: finding C15-ptr-right-operand (below)
+                if q and np in (1, 2): continue    # mixed pointer / non-pointer triples (thorough): no assertion while C15-ptr-right-operand is open
                 qs.append(Q('h_trans', [a, b, c]))
     for t in (['P_UI', 'P_UI', 'P_UI'], ['P_UI', 'P_S1', 'P_UI'], ['P_D', 'P_UI', 'P_A1'], ['P_S1', 'P_S2', 'P_S1']):
         qs.append(Q('h_trans', t))
